@@ -77,9 +77,9 @@ func VerifStream() {
 	freed := 0
 	var kept []vnKept
 	K := vParam("K", 3)
-	mask := vParam("OPS", 1023)
+	mask := vParam("OPS", 2047)
 	var ops []int
-	for o := 0; o < 10; o++ {
+	for o := 0; o < 11; o++ {
 		if mask&(1<<uint(o)) != 0 {
 			ops = append(ops, o)
 		}
@@ -145,6 +145,21 @@ func VerifStream() {
 					vAssert(r == rr && w == rw, "peekrune")
 					vReach("peekrune")
 				}
+			}
+		case 10: // Move over bytes that were not peeked, then Shift (Shift reads what is missing)
+			if gp < avail && failAt < 0 {
+				max := avail - gp
+				if max > 3 {
+					max = 3
+				}
+				k := vRange("mk", 1, max)
+				z.Move(k)
+				gp += k
+				b := z.Shift()
+				vAssert(string(b) == string(data[gs:gp]), "shift-after-unpeeked-move")
+				kept = append(kept, vnKept{b, append([]byte(nil), b...), gp})
+				gs = gp
+				vReach("moveshift")
 			}
 		case 9: // Err
 			e := z.Err()
